@@ -482,6 +482,7 @@ def rpe_cli(run, case, rng, work):
     return {"z": z, "processed": processed, "pairs": pairs, "surv": surv, "P": P, "o": o, "from_ref": from_ref,
             "selection": {"delta": delta, "unit": du, "tol": tol, "all_pairs": all_pairs},
             "relation": relation, "unit": unit, "factor": factor, "fp": fp, "argv": argv, "tool": "rpe",
+            "want": np.asarray(want, dtype=float) * factor,
             "stored": C01.stored_pair(z, fp)}
 
 
